@@ -438,6 +438,8 @@ func runC09(c *Ctx) {
 		}
 	}
 	runRouterReadOnly(c, "R12")
+	runC09Round4(c)
+	runC09ValidateReadOnly(c)
 }
 
 func mustFn(p *Prog, pk *packages.Package, T *types.Named, name string) *ssa.Function {
